@@ -259,6 +259,54 @@ def generate(rng, tier, seed):
             if m:
                 c.fail(f"key block after hostile input was offered: {m}: {w.value[:60]!r}")
         yield c
+    # header fields, block ids and block data given as `str` subclasses (a (str, Enum) member, a class with its own __str__ / __format__ /
+    # __repr__): they ARE strings - what is serialised is their character data, not what formatting them would print
+    import enum
+
+    class KU(str, enum.Enum):
+        PIN = "P0"
+        KEK = "K0"
+
+    class Alg(str, enum.Enum):
+        TDES = "T"
+        AES = "A"
+
+    class Loud(str):
+        def __str__(self):
+            return "<" + str.__str__(self) + ">"
+
+        def __format__(self, spec):
+            return "Loud(" + str.__str__(self) + ")"
+
+        def __repr__(self):
+            return "LOUD"
+
+    for ver in "ABCD":
+        for fields in ((KU.PIN, Alg.TDES, "E", "00", "N"), (KU.KEK, Alg.AES, Loud("B"), Loud("c1"), Loud("S")), (Loud("D0"), Loud("T"), "X", "00", Loud("E"))):
+            c = Case(f"{ver}:str-subclass-fields", {"types": [type(x).__name__ for x in fields]})
+            c.key = ("strsub", ver, tuple(type(x).__name__ for x in fields))
+            try:
+                h = tr31.Header(ver, *fields)
+                h.blocks[Loud("KS")] = Loud("12ab")
+                h.blocks["T1"] = KU.PIN
+            except tr31.HeaderError as e:
+                c.fail(f"header fields given as str subclasses were refused: {e}")
+                yield c
+                continue
+            plain = tr31.Header(ver, *[str.__str__(x) for x in fields])
+            plain.blocks["KS"] = "12ab"
+            plain.blocks["T1"] = "P0"
+            r = call_impl(str, (h,), stream="tr31")
+            if not r.ok or r.value != str(plain):
+                c.fail(f"str(header) with str-subclass fields is {r.value if r.ok else r.err!r}, with the same characters as plain str it is {str(plain)!r}")
+            w = call_impl("tr31.wrap", (rb(rng, 16), h, rb(rng, 16)), stream="tr31")
+            if w.ok:
+                m = framing(w.value, ver, plain)
+                if m:
+                    c.fail(f"key block from a header with str-subclass fields: {m}")
+            else:
+                c.fail(f"wrap with str-subclass fields raised {w.err}")
+            yield c
     # optional blocks whose id is the pad block's in another letter case (pb, Pb, pB): the serialiser emits them like any block, so the
     # count, the section sizes and the length field must still be right (what load makes of them is outside the property)
     for ver in "ABCD":
